@@ -104,3 +104,6 @@ func Ops() []Op                { return ops }
 func ClearOps()                { ops = nil }
 func IsFresh(mtime int64) bool { return mtime >= nowBase }
 func Native() bool             { return false }
+
+// SnapshotAll lists every node of the file system, paths relative to the common base of all roots.
+func SnapshotAll() []Entry { return Snapshot("") }
